@@ -3,7 +3,7 @@ import copy
 
 from symx import And, Or, Not, Implies, eq, is_nonfinite, NonFinite
 from symx.stubs import patched
-from .common import guarded, total, ref_update
+from .common import guarded, total, ref_update, check_state_coverage
 
 from ixai.utils.tracker import MultiValueTracker, WelfordTracker, ExponentialSmoothingTracker
 
@@ -80,6 +80,8 @@ def _fl(cfg, i):
 
 
 def _inject(env, mvt, K, cfg):
+    check_state_coverage(mvt)
+    check_state_coverage(mvt._base_tracker)
     st = {}
     mvt.tracked_value = {}
     mvt._tracked_keys = set()
